@@ -143,8 +143,14 @@ impl TransactionManager {
 
     /// Begins a new transaction with the specified isolation level.
     pub fn begin_with_isolation(&self, isolation_level: IsolationLevel) -> TxId {
+        #[cfg(grafeo_verif)]
+        grafeo_common::verif::yield_point("tx.begin.id");
         let tx_id = TxId::new(self.next_tx_id.fetch_add(1, Ordering::Relaxed));
+        #[cfg(grafeo_verif)]
+        grafeo_common::verif::yield_point("tx.begin.load");
         let epoch = EpochId::new(self.current_epoch.load(Ordering::Acquire));
+        #[cfg(grafeo_verif)]
+        grafeo_common::verif::yield_point("tx.begin.insert");
 
         let info = TxInfo::new(epoch, isolation_level);
         self.transactions.write().insert(tx_id, info);
@@ -223,6 +229,8 @@ impl TransactionManager {
     /// - There's a write-write conflict with another committed transaction
     /// - (Serializable only) There's a read-write conflict (SSI violation)
     pub fn commit(&self, tx_id: TxId) -> Result<EpochId> {
+        #[cfg(grafeo_verif)]
+        grafeo_common::verif::yield_point("tx.commit");
         let mut txns = self.transactions.write();
         let committed = self.committed_epochs.read();
 
@@ -454,6 +462,8 @@ impl TransactionManager {
     ///
     /// Returns the number of transactions cleaned up.
     pub fn gc(&self) -> usize {
+        #[cfg(grafeo_verif)]
+        grafeo_common::verif::yield_point("tx.gc");
         let mut txns = self.transactions.write();
         let mut committed = self.committed_epochs.write();
 
